@@ -202,10 +202,98 @@ func c14TextReuse(quick bool) C14Group {
 	return g
 }
 
+// c14TextOptionWords: the text options TIMEOUT and EXPRIED carry a 4-byte unsigned value: flag word in the high
+// 16 bits, time in the low 16 bits. For every single flag bit (and a few combinations, and the extreme values)
+// of either option the text LOCK must be answered like, and leave the same hold terms as, the binary LOCK with
+// those fields.
+func c14TextOptionWords(quick bool) C14Group {
+	g := C14Group{Name: "text-option-flag-words"}
+	type tc struct {
+		name   string
+		tf, ef uint16
+		t, e   uint16
+	}
+	var cases []tc
+	for b := 0; b < 16; b++ {
+		cases = append(cases, tc{fmt.Sprintf("timeout-flag-bit-%d", b), 1 << b, 0, 0, 30}, tc{fmt.Sprintf("expried-flag-bit-%d", b), 0, 1 << b, 0, 30})
+	}
+	cases = append(cases, tc{"all-timeout-bits", 0xffff, 0, 0xffff, 30}, tc{"all-expried-bits", 0, 0xffff, 0, 0xffff}, tc{"both-top-bits", 0x8000, 0x8000, 5, 30}, tc{"no-flags-max-times", 0, 0, 0xffff, 0xffff})
+	distinct := map[string]bool{}
+	for _, k := range cases {
+		g.Evaluations++
+		run := func(text bool) (string, string) {
+			var reply, state, err string
+			rt := vrt.Run(vrt.Options{MaxPoints: 50_000_000}, func() {
+				node := hapi.Factories["n0"](hapi.Config{FastKeys: 4, Concurrent: 1})
+				if e := node.Start(); e != nil {
+					err = "engine: " + e.Error()
+					return
+				}
+				vrt.AdvanceTo(1300 * ms)
+				conn, _ := wire.Dial(nodeAddr(0))
+				// a holder, so that requests with a wait time queue instead of being granted
+				_ = conn.Send(wire.BinFrame(hapi.Cmd{Type: 1, Req: 9, Key: 7, Id: 9, Expried: 600}))
+				conn.TakeBin()
+				if text {
+					tcn, _ := wire.Dial(nodeAddr(0))
+					tv, ev := uint32(k.tf)<<16|uint32(k.t), uint32(k.ef)<<16|uint32(k.e)
+					_ = tcn.Send(wire.Resp("LOCK", "\x00\x00\x00\x00\x00\x00\x00\x00\x00\x00\x00\x00\x00\x00\x00\x08", "LOCK_ID", "\x00\x00\x00\x00\x00\x00\x00\x00\x00\x00\x00\x00\x00\x00\x00\x01", "TIMEOUT", fmt.Sprint(tv), "EXPRIED", fmt.Sprint(ev)))
+					vrt.AdvanceTo(vrt.Elapsed() + 50*ms)
+					tcn.Pump()
+					r := tcn.TakeText()
+					reply = strings.Join(r, "|")
+					if i := strings.Index(reply, " "); len(r) == 1 && strings.HasPrefix(reply, "*[$") && i > 0 {
+						reply = reply[3:i] // result code
+					}
+				} else {
+					_ = conn.Send(wire.BinFrame(hapi.Cmd{Type: 1, Req: 1, Key: 8, Id: 1, Timeout: k.t, TimeoutFlag: k.tf, Expried: k.e, ExpriedFlag: k.ef}))
+					vrt.AdvanceTo(vrt.Elapsed() + 50*ms)
+					conn.Pump()
+					for _, r := range conn.TakeBin() {
+						if r.Req[0] == 1 && reply == "" {
+							reply = fmt.Sprint(r.Result) // the answer, not a later expiry notice
+						}
+					}
+				}
+				var k8 [16]byte
+				k8[15] = 8
+				if ks := node.Snapshot().Key(0, k8); ks != nil {
+					for _, h := range ks.Holds {
+						state += fmt.Sprintf("H(id%x tf%x ef%x e%d)", h.LockId[15], h.TimeoutFlag, h.ExpriedFlag, h.Expried)
+					}
+					for _, w := range ks.Waiters {
+						state += fmt.Sprintf("W(id%x t%d tf%x e%d ef%x)", w.LockId[15], w.Timeout, w.TimeoutFlag, w.Expried, w.ExpriedFlag)
+					}
+				}
+			})
+			if rt.Crash != nil {
+				err = "crash: " + rt.Crash.Value
+			}
+			if err != "" {
+				return err, ""
+			}
+			return reply, state
+		}
+		br, bs := run(false)
+		tr, ts := run(true)
+		if strings.HasPrefix(br, "engine:") || strings.HasPrefix(tr, "engine:") {
+			g.Violations = append(g.Violations, explore.Violation{Sig: "engine", Msg: br + tr})
+			return g
+		}
+		distinct[k.name+"|"+br+"|"+bs] = true
+		if (br != tr || bs != ts) && len(g.Violations) < 4 {
+			g.Violations = append(g.Violations, explore.Violation{Sig: "C14:text-option-word-differs-from-binary", Msg: fmt.Sprintf("%s (TIMEOUT %d, EXPRIED %d): the binary LOCK is answered %q and leaves [%s]; the text LOCK with the same 4-byte option values is answered %q and leaves [%s]", k.name, uint32(k.tf)<<16|uint32(k.t), uint32(k.ef)<<16|uint32(k.e), br, bs, tr, ts)})
+		}
+	}
+	g.Samples = append(g.Samples, fmt.Sprintf("%d option words, each as binary fields and as text option values", len(cases)))
+	g.Distinct = len(distinct)
+	return g
+}
+
 func init() {
 	Registry["C14"] = func(c *Ctx) int {
 		groups := RunC14Codec(c.Quick())
-		groups = append(groups, c14TextVsBinary(c.Quick()), c14TextReuse(c.Quick()))
+		groups = append(groups, c14TextVsBinary(c.Quick()), c14TextReuse(c.Quick()), c14TextOptionWords(c.Quick()))
 		evals, distinct, viol := 0, 0, 0
 		var samples []interface{}
 		per := map[string]interface{}{}
